@@ -65,12 +65,24 @@ def resolve_value(p: Program, expr: ast.AST, inst, _depth: int = 0):
                 expr, inst = b[1], Inst(b[2], None, None, {})
                 continue
             return expr, owner
-        if len(defs) == 1 and defs[0][0] == 'assign':
-            expr, inst = defs[0][1], owner
+        if len(defs) == 1 and defs[0][0] in ('assign', 'annassign'):
+            val = defs[0][1] if defs[0][0] == 'assign' else defs[0][2]
+            if val is None:
+                return expr, owner
+            from . import norm
+            if norm.is_empty_container(val) is not None:
+                how, acc = norm.accumulated_value(p, owner.unit, expr.id, val)
+                if how == 'opaque':
+                    return expr, owner          # filled by mutation: never fold to the empty initial value
+                val = acc
+            expr, inst = val, owner
             continue
-        if len(defs) == 1 and defs[0][0] == 'annassign' and defs[0][2] is not None:
-            expr, inst = defs[0][2], owner
-            continue
+        if len(defs) > 1 and all(d[0] in ('assign', 'annassign') for d in defs):
+            from . import norm
+            merged = norm.merged_if_value(p, owner.unit, expr.id, len(defs))
+            if merged is not None:
+                expr, inst = merged, owner
+                continue
         return expr, owner
     return expr, inst
 
@@ -320,6 +332,8 @@ def call_term(p: Program, c: ast.Call, inst, depth: int):
         if t[0] == 'class':
             return ('new', t[1].qualname, args, kws)
         if t[0] == 'ext':
+            if t[1] == 'builtins.getattr' and len(args) == 2 and not kws and args[1][0] == 'const' and isinstance(args[1][1], str):
+                return ('attr', args[0], args[1][1])          # getattr(x, 'name') is x.name
             if isinstance(c.func, ast.Attribute) and not t[1].startswith(('builtins.', 'functools.', 'asyncio.', 'networkx.')) \
                     or (isinstance(c.func, ast.Attribute) and env.type_of(c.func.value)[0] in ('ext', 'extattr', 'class', 'dict', 'seq')):
                 return ('call', f'ext:{t[1]}', (term(p, c.func.value, inst, depth + 1),) + args, kws)
